@@ -60,6 +60,8 @@ pub enum Op {
     Store(u64),
     /// send n fresh messages to partition 2
     Send2(u8),
+    /// update_topic: max topic size = server default
+    SetMaxDefault,
 }
 
 impl Op {
@@ -79,6 +81,7 @@ impl Op {
             Op::SetMaxSize(u) => format!("Z{u}"),
             Op::Store(o) => format!("O{o}"),
             Op::Send2(n) => format!("T{n}"),
+            Op::SetMaxDefault => "Zdef".into(),
         }
     }
 }
@@ -416,6 +419,7 @@ impl World {
         };
         let max = match max_size {
             None => cur_max,
+            Some(u64::MAX) => MaxTopicSize::ServerDefault,
             Some(0) => MaxTopicSize::Unlimited,
             Some(b) => MaxTopicSize::Custom(b.into()),
         };
@@ -497,6 +501,7 @@ impl World {
             Op::Maintain => StepOut::Done(self.maintain()),
             Op::SetExpiry(u) => StepOut::Done(self.update_topic(Some(*u), None)),
             Op::SetMaxSize(b) => StepOut::Done(self.update_topic(None, Some(*b))),
+            Op::SetMaxDefault => StepOut::Done(self.update_topic(None, Some(u64::MAX))),
             Op::Store(o) => {
                 let shared = self.node.shared();
                 let root = self.node.root.clone();
